@@ -56,11 +56,15 @@ __CPROVER_ensures((unsigned long)__CPROVER_return_value < OLD(NREG) || (!REGS[__
 __CPROVER_ensures((unsigned long)__CPROVER_return_value < OLD(NREG) || g_r >= OLD(NREG) || gr_name != name_id) /*@C03,C01*/;
 
 /* ------------------------------------------------------------------ traversal functions as callees: MONO only */
+#define CN(c) ((node_t *)(c))
+extern long g_num_id, g_num_val;
 void c_dispatchValue(void *p, void *c, int tgt)
 REQ_GS(p)
 REQ_GC
 ASSIGNS_GS_CALLEE
-ENS_MONO;
+ENS_MONO
+/* an integer literal that does not fit the word is reported (proved for the function itself: c_dispatchValue_top) */
+__CPROVER_ensures((c) == 0 || CN(c)->t != NT_NUMBER || CN(c)->tok._id != g_num_id || g_num_val < INT_MAX || GNERR > OLD(GNERR)) /*@C20,C04*/;
 
 void c_dispatchVoid(void *p, void *c)
 REQ_GS(p)
@@ -176,11 +180,14 @@ ENS_MONO
 /* at most one instruction, a breakpoint site (contracts/gen_tbl.c: c_advanceLine) */
 __CPROVER_ensures(GNC <= OLD(GNC) + 1 && (GNC == OLD(GNC) || GOP(GNC - 1) == OP_POTENTIAL_BREAK) && NLAB == OLD(NLAB) && NBP == OLD(NBP) &&
                   GNERR == OLD(GNERR) && NREG == OLD(NREG));
+extern long g_num_id, g_num_val; /* T5: value of the digit string with this identity (contracts/gen_misc.c) */
 int c_strToInt_callee(void *p, void *c)
 REQ_GS(p)
 ASSIGNS_GS_CALLEE
 ENS_MONO
-__CPROVER_ensures(GNC == OLD(GNC) && NLAB == OLD(NLAB) && NBP == OLD(NBP) && NREG == OLD(NREG) && GNERR <= OLD(GNERR) + 1);
+__CPROVER_ensures(GNC == OLD(GNC) && NLAB == OLD(NLAB) && NBP == OLD(NBP) && NREG == OLD(NREG) && GNERR <= OLD(GNERR) + 1)
+/* c_strToInt: a literal that does not fit the word is reported */
+__CPROVER_ensures((c) == 0 || CN(c)->tok._id != g_num_id || g_num_val < INT_MAX || GNERR == OLD(GNERR) + 1);
 /* contracts/gen_misc.c: c_strToIntSilent - the value of a digit string, clamped into [0, INT_MAX] */
 int c_strToIntSilent_callee(void *c)
 __CPROVER_requires(1)
@@ -190,10 +197,10 @@ __CPROVER_ensures(__CPROVER_return_value >= 0);
 #define FA (g_gs->funcAddrs._d)
 #define NFA (g_gs->funcAddrs._n)
 #define ERRT(i) (g_gs->errors._d[i].t)
-#define CN(c) ((node_t *)(c))
 #define IS_BUILTIN(id) ((id) == LIT___INC__ || (id) == LIT___DEC__)
 /* ghosts describing the (harness built) call node: number of arguments, name of the callee */
-extern int g_argc, g_k2;
+extern int g_argc, g_k2, n_a1_t, n_a2_t;
+extern long n_a2_tok;
 extern long g_fname;
 void c_dispatchValue_top(void *p, void *c, int tgt)
 REQ_GS(p)
@@ -210,6 +217,11 @@ __CPROVER_ensures((c) == 0 || CN(c)->t != NT_NAME ||
 /* VALUE -> int : constant load into the target */
 __CPROVER_ensures((c) == 0 || CN(c)->t != NT_NUMBER ||
                   (GNC >= OLD(GNC) + 1 && GOP(GNC - 1) == OP_CONST && GPAR(GNC - 1, PI_constant_target) == tgt)) /*@C01*/
+/* C20/C04: an integer literal that does not fit the word is rejected - as a value of its own ... */
+__CPROVER_ensures((c) == 0 || CN(c)->t != NT_NUMBER || CN(c)->tok._id != g_num_id || g_num_val < INT_MAX || GNERR > OLD(GNERR)) /*@C20,C04*/
+/* ... and as the constant of the built-in x + c / x - c sugar (RUN __INC__/__DEC__ WITH x, c END) */
+__CPROVER_ensures((c) == 0 || CN(c)->t != NT_CALL || !IS_BUILTIN(g_fname) || g_argc != 2 || n_a1_t != NT_NAME || n_a2_t != NT_NUMBER ||
+                  n_a2_tok != g_num_id || g_num_val < INT_MAX || GNERR > OLD(GNERR)) /*@C20,C04*/
 /* C04/C16: a RUN of a name that is not (yet) in the program table is an error and emits no call */
 __CPROVER_ensures((c) == 0 || CN(c)->t != NT_CALL || IS_BUILTIN(g_fname) || model_last_map < OLD(NFA) ||
                   (GNERR >= OLD(GNERR) + 1 && ERRT(GNERR - 1) == ET_UNKNOWN_PROGRAM_NAME && (GNC == OLD(GNC) || GOP(GNC - 1) != OP_EXEC || g_argc > 0))) /*@C04,C16*/
@@ -314,8 +326,9 @@ static void *setup(void)
 #define K_FA 4
 static struct m_map_string_Prog_e the_fa[K_FA];
 static node_t n_call, n_name, n_s1, n_s2, n_a1, n_a2;
-int g_argc, g_k2;
-long g_fname;
+int g_argc, g_k2, n_a1_t, n_a2_t;
+long g_fname, n_a2_tok;
+long g_num_id, g_num_val;
 /* a value node: NAME / NUMBER / CALL with at most two arguments (BOUND of the dispatchValue group) / anything else */
 static void *setup_value(void)
 {
@@ -329,6 +342,9 @@ static void *setup_value(void)
   n_s1.right = g_argc == 2 ? &n_s2 : 0;
   n_call.right = g_argc == 0 ? 0 : &n_s1;
   __CPROVER_assume(n_a1.t != NT_SPLIT && n_a2.t != NT_SPLIT);
+  n_a1_t = n_a1.t; n_a2_t = n_a2.t; n_a2_tok = n_a2.tok._id;
+  g_num_id = nondet_long(); g_num_val = nondet_long();
+  __CPROVER_assume(g_num_val >= 0);
   return &n_call;
 }
 #define CANARY __CPROVER_assert(0, "canary: end of harness reachable (requires satisfiable)")
